@@ -133,6 +133,8 @@ def obligation_name(unit, f, template_fn_of_line=None):
         return "verus:%s:%s:%s@%s[%s]" % (unit, o.get("fn", fn), kind, o.get("sec"), o.get("text", "")[:70])
     if o.get("k") == "body":
         return "verus:%s:%s:%s[%s]" % (unit, fn, kind, f.get("expr", ""))
+    if o.get("k") == "const":
+        return "verus:%s:%s:has_recorded_value[%s]" % (unit, o.get("fn"), f.get("expr", ""))
     if o.get("k") == "template":
         return "verus:%s:template-L%s:%s[%s]" % (unit, o.get("line"), kind, f.get("expr", ""))
     return "verus:%s:%s:%s[%s]" % (unit, fn, kind, f.get("expr", ""))
